@@ -27,7 +27,7 @@ type Node struct {
 	I    int64  `json:"i,omitempty"`    // int leaf
 	FB   uint64 `json:"fb,omitempty"`   // float leaf (bits)
 	S    string `json:"s,omitempty"`    // string leaf
-	Prov string `json:"prov,omitempty"` // lit | var | id
+	Prov string `json:"prov,omitempty"` // lit | var | id | elem | velem | mapv | tern
 	L    *Node  `json:"l,omitempty"`
 	R    *Node  `json:"r,omitempty"`
 }
@@ -61,8 +61,12 @@ var intOps = []string{"+", "-", "*", "%", "&", "|", "<<", ">>", "/"}
 var floatOps = []string{"+", "-", "*", "/"}
 var cmpOps = []string{"<", "<=", ">", ">=", "==", "!="}
 
+// where a leaf value comes from: literal, variable, Go call returning interface{}, element of a
+// list literal / of a list held in a variable, map entry, ternary
+var provs = []string{"lit", "lit", "lit", "var", "var", "id", "id", "elem", "velem", "mapv", "tern"}
+
 func genLeaf(t *rapid.T, k string) *Node {
-	n := &Node{Op: "leaf", K: k, Prov: rapid.SampledFrom([]string{"lit", "lit", "var", "id"}).Draw(t, "prov")}
+	n := &Node{Op: "leaf", K: k, Prov: rapid.SampledFrom(provs).Draw(t, "prov")}
 	switch k {
 	case "i":
 		n.I = vals.Int().Draw(t, "i")
@@ -155,6 +159,20 @@ func genCase1(t *rapid.T) Case {
 		return Case{genStr(t, depth)}
 	default:
 		op := rapid.SampledFrom(cmpOps).Draw(t, "cmp")
+		if rapid.IntRange(0, 3).Draw(t, "nearpair") == 0 {
+			// two integers that are neighbours: beyond 2^53 they are distinct int64 values that
+			// collapse to one float64
+			l := genLeaf(t, "i")
+			if rapid.Bool().Draw(t, "huge") {
+				l.I = rapid.SampledFrom([]int64{1 << 53, 1<<53 + 1, -(1 << 53), 1 << 54, 1<<60 + 1, 1 << 62, math.MaxInt64 - 1, math.MaxInt64, math.MinInt64, math.MinInt64 + 1, 1<<53 - 1}).Draw(t, "hugev")
+			}
+			r := genLeaf(t, "i")
+			r.I = l.I + rapid.Int64Range(-2, 2).Draw(t, "delta") // wraps at the ends: still an int64
+			if rapid.Bool().Draw(t, "swap") {
+				l, r = r, l
+			}
+			return Case{&Node{Op: op, L: l, R: r}}
+		}
 		lk := rapid.SampledFrom([]string{"i", "f"}).Draw(t, "lk")
 		rk := rapid.SampledFrom([]string{"i", "f"}).Draw(t, "rk")
 		if op == "==" || op == "!=" {
@@ -201,6 +219,16 @@ func (p *printer) expr(n *Node) string {
 			return name
 		case "id":
 			return "id(" + lit + ")"
+		case "elem":
+			return "[" + lit + "][0]"
+		case "velem":
+			name := fmt.Sprintf("v%d", len(p.vars))
+			p.vars = append(p.vars, name+" = [0, "+lit+"]")
+			return name + "[1]"
+		case "mapv":
+			return "{\"k\": " + lit + "}.k"
+		case "tern":
+			return "(true ? " + lit + " : 0)"
 		}
 		return lit
 	case "neg":
